@@ -164,6 +164,12 @@ impl Remover {
                 let end_cursor = child_markers.len()
                     - Self::merge_child_markers(child_markers.iter().rev(), &mut end_marker);
 
+                if start_cursor > end_cursor {
+                    // A child marker joins both parts: everything in between is removed.
+                    acc.push((marker.start..end_marker.end, None));
+                    return acc;
+                }
+
                 let current = acc.len();
                 acc.push((
                     marker,
